@@ -654,7 +654,7 @@ impl Prop for C11 {
     }
     fn execute(k: &FaultCase, ctx: &mut Ctx) -> Verdict {
         match k.elem {
-            ElemKind::Tr | ElemKind::U32 => run_fault::<Tr>(k, ctx),
+            ElemKind::Tr | ElemKind::U32 | ElemKind::U128 | ElemKind::B3 => run_fault::<Tr>(k, ctx),
             ElemKind::Bx => run_fault::<Bx>(k, ctx),
             ElemKind::Zs => run_fault::<Zs>(k, ctx),
         }
@@ -911,6 +911,8 @@ impl Prop for C12 {
         match k.elem {
             ElemKind::Tr => run_leak::<Tr>(k, ctx),
             ElemKind::U32 => run_leak::<u32>(k, ctx),
+            ElemKind::U128 => run_leak::<u128>(k, ctx),
+            ElemKind::B3 => run_leak::<crate::elem::B3>(k, ctx),
             ElemKind::Bx => run_leak::<Bx>(k, ctx),
             ElemKind::Zs => run_leak::<Zs>(k, ctx),
         }
